@@ -313,8 +313,9 @@ class Program:
                     tree = ast.parse(src, filename=path)
                 except SyntaxError as e:
                     raise AnalysisIncomplete("syntax error in %s: %s" % (path, e))
-                tree = _DesugarLiteralLoops().visit(tree)
-                ast.fix_missing_locations(tree)
+                from .desugar import desugar_module
+
+                tree = desugar_module(tree)
                 mod = ModuleInfo(name, path, tree, src, is_pkg, root=self.repo)
                 self.modules[name] = mod
                 self._index(mod)
